@@ -82,9 +82,23 @@ Lemma set_state_fields st r :
   r_verdicts (set_state st r) = r_verdicts r /\ r_state (set_state st r) = st.
 Proof. repeat split. Qed.
 
+Lemma sub_overflow_empty d : ndelegates d <? majority d = true -> d_delegates d = [].
+Proof.
+  unfold majority, ndelegates. intros H. apply N.ltb_lt in H.
+  destruct (d_delegates d) as [|x l]; [reflexivity|]. exfalso.
+  set (n := N.of_nat (length (x :: l))) in *.
+  assert (1 <= n) by (unfold n; simpl length; rewrite Nat2N.inj_succ; lia).
+  pose proof (N.div_mod' n 2) as E. pose proof (N.mod_lt n 2 ltac:(lia)) as M.
+  remember (n / 2) as q. remember (n mod 2) as m. lia.
+Qed.
+
 Section Proofs.
 Variable sig_ok : N -> N -> N -> bool.
 Variable blob_store : N -> blob_res.
+(* a property of documents that every parsed blob has (instantiated with [True] for the C04
+   theorems and with "has a delegate" for the panic-freedom theorem) *)
+Variable P : doc -> Prop.
+Hypothesis blob_P : forall b d, blob_store b = BDoc d -> P d.
 
 Notation action_step := (action_step sig_ok blob_store).
 Notation op_loop := (op_loop sig_ok blob_store).
@@ -117,7 +131,8 @@ Record Inv (s : identity) : Prop := {
   inv_votes : forall k id r cur, lookup k (i_heads s) = Some id ->
               revs_of s id = Some (Some r) -> r_state r = Active ->
               revs_of s (i_current s) = Some (Some cur) ->
-              is_delegate (r_doc cur) k = true /\ valid_accept r k = true }.
+              is_delegate (r_doc cur) k = true /\ valid_accept r k = true;
+  inv_docs : forall id r, revs_of s id = Some (Some r) -> P (r_doc r) }.
 
 (* what one executed action may do to the identity *)
 Definition accepted_kept (pre post : identity) : Prop :=
@@ -216,6 +231,8 @@ Proof.
       destruct (N.eqb x id); simpl; [congruence|].
       destruct (lookup x (i_revisions s)); simpl; congruence.
     + intros k x rx cur' Hk Hx Hact. exfalso. eapply Hna; eassumption.
+    + intros x rx Hx. destruct (Hfrom _ _ Hx) as [r0 [st [H0 ->]]]. simpl.
+      eapply (inv_docs s I). exact H0.
   - split.
     + intros x rx Hx Hacc. unfold revs_of in *. simpl. fold revs'. rewrite Hlk.
       destruct (N.eqb_spec x id).
@@ -301,6 +318,9 @@ Proof.
            destruct (N.eqb_spec k author); [congruence | exact V2].
       * destruct (N.eqb_spec k author) as [Ek|Nk]; [subst k|]; [inversion Hk; congruence|].
         apply (inv_votes s I k x rx cur Hk Hx Hact Hc).
+    + intros x rx. rewrite Hrev. destruct (N.eqb_spec x id).
+      * intros E; inversion E; subst. simpl. apply (inv_docs s I _ _ Hr).
+      * apply (inv_docs s I).
   - intros x rx Hx Hacc. rewrite Hrev. destruct (N.eqb_spec x id); [|exact Hx].
     subst x. rewrite Hr in Hx. inversion Hx; subst. congruence.
   - rewrite Hrev, N.eqb_refl. reflexivity.
@@ -311,7 +331,7 @@ Qed.
    verdict of a key other than [author] is kept and [author] has no accepting vote on it *)
 Lemma replace_active s id r r' author :
   Inv s -> revs_of s id = Some (Some r) -> r_state r = Active ->
-  r_id r' = r_id r -> r_parent r' = r_parent r -> r_blob r' = r_blob r ->
+  r_id r' = r_id r -> r_parent r' = r_parent r -> r_blob r' = r_blob r -> r_doc r' = r_doc r ->
   sorted (r_verdicts r') ->
   (forall k, k <> author -> lookup k (r_verdicts r') = lookup k (r_verdicts r)) ->
   (lookup author (r_verdicts r') = lookup author (r_verdicts r) \/ lookup author (r_verdicts r) = None) ->
@@ -319,7 +339,7 @@ Lemma replace_active s id r r' author :
   let s' := set_revisions (insert id (Some r') (i_revisions s)) s in
   Inv s' /\ step_ok s s'.
 Proof.
-  intros I Hr Ha Eid Epar Eblob Hsv Hkeep Hauth Hnacc s'.
+  intros I Hr Ha Eid Epar Eblob Edoc Hsv Hkeep Hauth Hnacc s'.
   pose proof (active_not_current s id r I Hr Ha) as Hne.
   assert (Hrev : forall x, revs_of s' x = if N.eqb x id then Some (Some r') else revs_of s x).
   { intros x. unfold revs_of, s'. simpl. apply lookup_insert. apply (inv_sr s I). }
@@ -353,6 +373,9 @@ Proof.
         -- destruct Hauth as [E|E]; [rewrite E; exact V2 | rewrite E in V2; discriminate].
         -- rewrite Hkeep by exact Nk. exact V2.
       * apply (inv_votes s I k x rx cur Hk Hx Hact Hc).
+    + intros x rx. rewrite Hrev. destruct (N.eqb_spec x id).
+      * intros E; inversion E; subst. rewrite Edoc. apply (inv_docs s I _ _ Hr).
+      * apply (inv_docs s I).
   - split.
     + intros x rx Hx Hacc. rewrite Hrev. destruct (N.eqb_spec x id); [|exact Hx].
       subst x. rewrite Hr in Hx. inversion Hx; subst. congruence.
@@ -387,6 +410,7 @@ Proof.
       intros Hk Hx Hact Hcur'. inversion Hcur'; subst cur'.
       destruct (N.eqb_spec x id); [discriminate|].
       apply (inv_votes s I k x rx cur Hk Hx Hact Hc).
+    + intros x rx. rewrite Hrev. destruct (N.eqb_spec x id); [discriminate | apply (inv_docs s I)].
   - split.
     + intros x rx Hx Hacc. rewrite Hrev. destruct (N.eqb_spec x id); [|exact Hx].
       subst x. rewrite Hr in Hx. inversion Hx; subst. congruence.
@@ -395,7 +419,7 @@ Qed.
 
 (* --- revision: the state just before `adopt` (or the final state of a stale proposal) *)
 Lemma revision_pre_adopt s entry author text blob d pr p cur sig state :
-  Inv s -> revs_of s entry = None ->
+  Inv s -> P d -> revs_of s entry = None ->
   revs_of s (i_current s) = Some (Some cur) -> is_delegate (r_doc cur) author = true ->
   revs_of s p = Some (Some pr) ->
   verify_signature sig_ok (r_doc pr) author sig blob = true ->
@@ -405,7 +429,7 @@ Lemma revision_pre_adopt s entry author text blob d pr p cur sig state :
               (set_heads (insert author entry (i_heads s)) s) in
   Inv s1 /\ accepted_kept s s1 /\ revs_of s1 entry = Some (Some r).
 Proof.
-  intros I Hfresh Hc Hdel Hp Hv Est r s1.
+  intros I HPd Hfresh Hc Hdel Hp Hv Est r s1.
   apply andb_true_iff in Hv. destruct Hv as [Hdelp Hsig].
   assert (Hrev : forall x, revs_of s1 x = if N.eqb x entry then Some (Some r) else revs_of s x).
   { intros x. unfold revs_of, s1. simpl. apply lookup_insert. apply (inv_sr s I). }
@@ -443,6 +467,9 @@ Proof.
         -- exfalso. apply (inv_hm s I k entry Hk). exact Hfresh.
       * destruct (N.eqb_spec k author) as [Ek|Nk]; [subst k|]; [inversion Hk; congruence|].
         apply (inv_votes s I k x rx cur Hk Hx Hact Hc).
+    + intros x rx. rewrite Hrev. destruct (N.eqb_spec x entry).
+      * intros E; inversion E; subst. simpl. exact HPd.
+      * apply (inv_docs s I).
   - intros x rx Hx Hacc. rewrite Hrev. destruct (N.eqb_spec x entry); [|exact Hx].
     subst x. rewrite Hfresh in Hx. discriminate.
   - rewrite Hrev, N.eqb_refl. reflexivity.
@@ -455,7 +482,8 @@ Definition action_post (s s' : identity) (o : outcome) : Prop :=
   | OOk => Inv s' /\ step_ok s s'
   | OErr EUnexpectedState | OErr ERedacted => s' = s
   | OErr _ => True
-  | OPanic p => p = PSubOverflow
+  | OPanic p => p = PSubOverflow /\
+                exists id r, revs_of s id = Some (Some r) /\ d_delegates (r_doc r) = []
   end.
 
 Lemma action_step_spec s a entry author :
@@ -469,14 +497,15 @@ Proof.
   - (* revision *)
     destruct (mem entry (i_revisions s)) eqn:Hmem; simpl; [exact Logic.I|].
     apply mem_false_lookup in Hmem.
-    destruct (blob_store blob) as [d| |]; simpl; try exact Logic.I.
+    destruct (blob_store blob) as [d| |] eqn:Hblob; simpl; try exact Logic.I.
+    pose proof (blob_P _ _ Hblob) as HPd.
     destruct parent as [p|]; simpl; [|exact Logic.I].
     destruct (lookup p (i_revisions s)) as [[pr|]|] eqn:Hp; simpl; try exact Logic.I; [|reflexivity].
     destruct (N.eqb (r_id pr) (r_id cur) && doc_eqb d (r_doc pr)) eqn:Hun; simpl; [exact Logic.I|].
     destruct (verify_signature sig_ok (r_doc pr) author sig blob) eqn:Hv; simpl; [|exact Logic.I].
     destruct (revision_pre_adopt s entry author text blob d pr p cur sig
                 (if N.eqb (r_id pr) (r_id cur) then Active else Stale)
-                I Hmem Hc Hdel Hp Hv eq_refl) as [I1 [K1 R1]].
+                I HPd Hmem Hc Hdel Hp Hv eq_refl) as [I1 [K1 R1]].
     destruct (N.eqb (r_id pr) (r_id cur)) eqn:Esame.
     + match goal with |- context [adopt ?s1 entry] =>
         destruct (adopt_spec s1 entry _ I1 R1 eq_refl) as [s2 [E2 [I2 [S2 _]]]]; rewrite E2 end.
@@ -517,7 +546,8 @@ Proof.
     2:{ simpl. apply (replace_active s id r r1 author I Hr Ha); try reflexivity; try assumption.
         - right; exact Hm.
         - unfold r1; simpl. congruence. }
-    destruct (ndelegates (r_doc r) <? majority (r_doc r)); simpl; [exact eq_refl|].
+    destruct (ndelegates (r_doc r) <? majority (r_doc r)) eqn:Hov; simpl.
+    { split; [reflexivity|]. exists id, r. split; [exact Hr | apply sub_overflow_empty; exact Hov]. }
     destruct (ndelegates (r_doc r) - majority (r_doc r) <? count_rejected r1); simpl.
     + apply (replace_active s id r (set_state Rejected r1) author I Hr Ha); try reflexivity; try assumption.
       * right; exact Hm.
@@ -542,7 +572,7 @@ Notation op_trace := (op_trace sig_ok blob_store).
 Notation run_trace := (run_trace sig_ok blob_store).
 
 Lemma Inv_push e s : Inv s -> Inv (push_timeline e s).
-Proof. intros [H1 H2 H3 H4 H5 H6 H7 H8]. constructor; assumption. Qed.
+Proof. intros [H1 H2 H3 H4 H5 H6 H7 H8 H9]. constructor; assumption. Qed.
 
 Definition internal_panic (o : outcome) : Prop :=
   o = OPanic PCurrent \/ o = OPanic PCurrentMut \/ o = OPanic PAssertParent.
@@ -579,7 +609,7 @@ Proof.
       * intros Eok. rewrite Eok in Hd. simpl in Hd. discriminate.
       * destruct o as [|e|p]; [simpl in Hd; discriminate| |].
         -- intros [H|[H|H]]; discriminate.
-        -- simpl in Hs. subst p. intros [H|[H|H]]; discriminate.
+        -- simpl in Hs. destruct Hs as [-> _]. intros [H|[H|H]]; discriminate.
     + apply op_decide_none in Hd.
       assert (I1 : Inv s1 /\ step_ok s s1).
       { destruct Hd as [->|[->| ->]]; simpl in Hs.
@@ -645,12 +675,14 @@ Proof.
   destruct (N.eqb k k0); [congruence | apply Hv].
 Qed.
 
-Lemma from_root_inv n s0 : from_root n = inl s0 -> Inv s0.
+Lemma from_root_inv n s0 :
+  (forall b d, n_load n = LDoc b d -> P d) -> from_root n = inl s0 -> Inv s0.
 Proof.
-  unfold CobIdentity.from_root.
+  intros Hroot. unfold CobIdentity.from_root.
   destruct (o_actions (n_op n)) as [|[text blob parent sig| | | |] rest]; try discriminate.
   destruct parent; [discriminate|]. destruct rest; [|discriminate].
   destruct (n_load n) as [rblob rdoc|]; [|discriminate].
+  specialize (Hroot rblob rdoc eq_refl).
   destruct (negb (rblob =? blob)); [discriminate|].
   destruct (negb (rblob =? n_repo_id n)); [discriminate|].
   destruct (d_delegates rdoc) as [|founder ds] eqn:Hds; [discriminate|].
@@ -670,6 +702,7 @@ Proof.
   - intros k x Hk. apply Hhv in Hk. subst x. fold root. rewrite N.eqb_refl. discriminate.
   - intros k x r cur Hk. apply Hhv in Hk. subst x. fold root. rewrite N.eqb_refl.
     intros E; inversion E; subst. simpl. discriminate.
+  - intros x r. destruct (N.eqb x root); [|discriminate]. intros E; inversion E; subst. exact Hroot.
 Qed.
 
 (* ------------------------------------------------------------------ the C04 statements *)
@@ -680,6 +713,7 @@ Proof.
 Qed.
 
 Theorem adoption_needs_majority dbg n s0 ops pre author a post :
+  (forall b d, n_load n = LDoc b d -> P d) ->
   from_root n = inl s0 ->
   In (pre, author, a, post) (run_trace dbg s0 ops) ->
   i_current post <> i_current pre ->
@@ -687,13 +721,14 @@ Theorem adoption_needs_majority dbg n s0 ops pre author a post :
                  get_rev post (i_current post) = Some r /\
                  2 * valid_accepts (r_doc prev) r > ndelegates (r_doc prev).
 Proof.
-  intros Hroot Hin Hne. apply from_root_inv in Hroot.
+  intros HP Hroot Hin Hne. apply (from_root_inv _ _ HP) in Hroot.
   pose proof (run_trace_spec dbg ops s0 Hroot) as Hall. rewrite Forall_forall in Hall.
   destruct (Hall _ Hin) as [I [_ Had]]. destruct (Had Hne) as [prev [r [P1 [P2 [_ [_ P5]]]]]].
   exists prev, r. rewrite !get_rev_revs_of. auto.
 Qed.
 
 Theorem current_stable dbg n s0 ops pre author a post :
+  (forall b d, n_load n = LDoc b d -> P d) ->
   from_root n = inl s0 ->
   In (pre, author, a, post) (run_trace dbg s0 ops) ->
   (exists cur, get_rev pre (i_current pre) = Some cur /\ r_state cur = Accepted /\
@@ -703,7 +738,7 @@ Theorem current_stable dbg n s0 ops pre author a post :
      exists r, get_rev post (i_current post) = Some r /\ r_parent r = Some (i_current pre) /\
                r_state r = Accepted).
 Proof.
-  intros Hroot Hin. apply from_root_inv in Hroot.
+  intros HP Hroot Hin. apply (from_root_inv _ _ HP) in Hroot.
   pose proof (run_trace_spec dbg ops s0 Hroot) as Hall. rewrite Forall_forall in Hall.
   destruct (Hall _ Hin) as [I [Hk Had]]. split; [|split].
   - destruct (inv_cur pre I) as [cur [C1 C2]]. exists cur. rewrite !get_rev_revs_of.
@@ -714,9 +749,62 @@ Proof.
 Qed.
 
 Theorem no_internal_panic dbg n s0 ops :
+  (forall b d, n_load n = LDoc b d -> P d) ->
   from_root n = inl s0 ->
   Forall (fun x => ~ internal_panic (fst x)) (run_ops dbg s0 ops).
-Proof. intros H. apply run_ops_no_internal_panic. eapply from_root_inv; exact H. Qed.
+Proof. intros HP H. apply run_ops_no_internal_panic. eapply from_root_inv; eassumption. Qed.
+
+(* --- when every document has a delegate, the only panic left is the debug-only
+   timeline assertion *)
+Section NonEmpty.
+Hypothesis P_nonempty : forall d, P d -> d_delegates d <> [].
+
+Lemma action_no_panic s a entry author p :
+  Inv s -> snd (action_step s a entry author) <> OPanic p.
+Proof.
+  intros I E. pose proof (action_step_spec s a entry author I) as Hs. rewrite E in Hs.
+  simpl in Hs. destruct Hs as [_ [id [r [Hr He]]]].
+  apply (P_nonempty _ (inv_docs s I id r Hr)). exact He.
+Qed.
+
+Lemma op_loop_panic dbg id author conc acts : forall s p, Inv s ->
+  snd (op_loop dbg s id author conc acts) = OPanic p -> p = PDebugTimeline /\ dbg = true.
+Proof.
+  induction acts as [|a rest IH]; intros s p I; simpl; [discriminate|].
+  pose proof (action_step_spec s a id author I) as Hs.
+  pose proof (action_no_panic s a id author) as Hnp.
+  destruct (action_step s a id author) as [s1 o]. simpl in Hs, Hnp.
+  destruct (op_decide conc o) as [out|] eqn:Hd.
+  - pose proof (op_decide_some _ _ _ Hd) as Eo. subst out. simpl. intros E. exfalso.
+    eapply Hnp; [exact I | exact E].
+  - apply op_decide_none in Hd.
+    assert (I1 : Inv s1).
+    { destruct Hd as [->|[->| ->]]; simpl in Hs.
+      - apply Hs.
+      - subst s1. exact I.
+      - subst s1. exact I. }
+    destruct dbg; simpl.
+    + destruct (memN id (i_timeline s1)); simpl.
+      * intros E; inversion E. split; reflexivity.
+      * intros E. destruct (IH _ _ (Inv_push id s1 I1) E) as [A _]. split; [exact A | reflexivity].
+    + intros E. apply (IH _ _ (Inv_push id s1 I1) E).
+Qed.
+
+Lemma run_ops_panic dbg ops : forall s, Inv s ->
+  Forall (fun x => forall p, fst x = OPanic p -> p = PDebugTimeline /\ dbg = true) (run_ops dbg s ops).
+Proof.
+  induction ops as [|o rest IH]; intros s I; simpl; [constructor|].
+  destruct (apply_op_spec dbg s o I) as [A _].
+  pose proof (op_loop_panic dbg (o_id o) (o_author o) (o_conc o) (o_actions o) s) as Hp.
+  unfold CobIdentity.apply_op in *.
+  destruct (op_loop dbg s (o_id o) (o_author o) (o_conc o) (o_actions o)) as [s' out]. simpl in *.
+  destruct out as [|e|p0]; simpl in *.
+  - constructor; [simpl; discriminate | apply IH; exact A].
+  - constructor; [simpl; discriminate | apply IH; exact A].
+  - constructor; [|constructor]. simpl. intros p E. inversion E; subst. apply Hp; [exact I | reflexivity].
+Qed.
+
+End NonEmpty.
 
 (* --- operations by keys that are not delegates of the current document *)
 
@@ -786,3 +874,66 @@ Proof.
 Qed.
 
 End Proofs.
+
+(* ------------------------------------------------------------------ instances *)
+
+Definition any_doc (_ : doc) : Prop := True.
+
+Theorem adoption_needs_majority_any sig_ok blob_store dbg n s0 ops pre author a post :
+  from_root sig_ok n = inl s0 ->
+  In (pre, author, a, post) (run_trace sig_ok blob_store dbg s0 ops) ->
+  i_current post <> i_current pre ->
+  exists prev r, get_rev pre (i_current pre) = Some prev /\
+                 get_rev post (i_current post) = Some r /\
+                 2 * valid_accepts sig_ok (r_doc prev) r > ndelegates (r_doc prev).
+Proof.
+  apply (adoption_needs_majority sig_ok blob_store any_doc (fun _ _ _ => I)). intros; exact I.
+Qed.
+
+Theorem current_stable_any sig_ok blob_store dbg n s0 ops pre author a post :
+  from_root sig_ok n = inl s0 ->
+  In (pre, author, a, post) (run_trace sig_ok blob_store dbg s0 ops) ->
+  (exists cur, get_rev pre (i_current pre) = Some cur /\ r_state cur = Accepted /\
+               get_rev post (i_current pre) = Some cur) /\
+  (forall id r, get_rev pre id = Some r -> r_state r = Accepted -> get_rev post id = Some r) /\
+  (i_current post <> i_current pre ->
+     exists r, get_rev post (i_current post) = Some r /\ r_parent r = Some (i_current pre) /\
+               r_state r = Accepted).
+Proof.
+  apply (current_stable sig_ok blob_store any_doc (fun _ _ _ => I)). intros; exact I.
+Qed.
+
+Theorem no_internal_panic_any sig_ok blob_store dbg n s0 ops :
+  from_root sig_ok n = inl s0 ->
+  Forall (fun x => ~ internal_panic (fst x)) (run_ops sig_ok blob_store dbg s0 ops).
+Proof.
+  apply (no_internal_panic sig_ok blob_store any_doc (fun _ _ _ => I)). intros; exact I.
+Qed.
+
+Lemma from_root_nonempty sig_ok n s0 : from_root sig_ok n = inl s0 ->
+  forall b d, n_load n = LDoc b d -> d_delegates d <> [].
+Proof.
+  unfold from_root.
+  destruct (o_actions (n_op n)) as [|[text blob parent sig| | | |] rest]; try discriminate.
+  destruct parent; [discriminate|]. destruct rest; [|discriminate].
+  destruct (n_load n) as [rblob rdoc|]; [|discriminate].
+  destruct (negb (rblob =? blob)); [discriminate|].
+  destruct (negb (rblob =? n_repo_id n)); [discriminate|].
+  destruct (d_delegates rdoc) as [|founder ds] eqn:Hds; [discriminate|].
+  intros _ b d E. inversion E; subst. rewrite Hds. discriminate.
+Qed.
+
+(* every document has a delegate (Delegates::new refuses an empty list): the only panic that
+   can happen in any history is the debug-only assertion on the timeline (an operation with
+   several actions evaluated by a debug build) *)
+Theorem only_debug_panic sig_ok blob_store dbg n s0 ops :
+  (forall b d, blob_store b = BDoc d -> d_delegates d <> []) ->
+  from_root sig_ok n = inl s0 ->
+  Forall (fun x => forall p, fst x = OPanic p -> p = PDebugTimeline /\ dbg = true)
+         (run_ops sig_ok blob_store dbg s0 ops).
+Proof.
+  intros Hb Hroot.
+  apply (run_ops_panic sig_ok blob_store (fun d => d_delegates d <> []) Hb (fun d H => H)).
+  apply (from_root_inv sig_ok (fun d => d_delegates d <> []) n s0); [|exact Hroot].
+  apply (from_root_nonempty sig_ok n s0 Hroot).
+Qed.
